@@ -11,7 +11,7 @@
 (*                  for offset = delivered                                  *)
 (*   Completes      EOF only when delivered = Len(stream)                   *)
 (*   BoundedRetry   an error is returned only after budget+1 consecutive    *)
-(*                  failed attempts, and is sticky                          *)
+(*                  failed attempts, is returned then, and is sticky        *)
 (***************************************************************************)
 EXTENDS Integers, Sequences, TLC, Json, IOUtils
 
@@ -40,12 +40,16 @@ Step ==
          \* visible in the open log; failed reads are the opens that were followed by another open)
          attempts == Len(newOpens) + (IF opens > 0 /\ ended = "" THEN 1 ELSE 0)
          giveupOK == st.err # "fail" \/ ended = "fail" \/ attempts >= r.budget + 1
+         \* ... and it does give up then: a call that returned data (or EOF) made at most budget failed attempts
+         \* before the one that succeeded
+         persistOK == st.err \notin {"", "EOF"} \/ ended # "" \/ attempts - 1 <= r.budget
          what == IF ~nOK THEN "CountInRange"
                  ELSE IF ~offsOK THEN "ReopenAtDeliveredOffset"
                  ELSE IF ~dataOK THEN "NoGapNoRepeat"
                  ELSE IF ~eofOK THEN "EOFOnlyAtEnd"
                  ELSE IF ~stickyOK THEN "StickyEnd"
                  ELSE IF ~giveupOK THEN "FailsOnlyAfterBudget"
+                 ELSE IF ~persistOK THEN "GivesUpWhenBudgetExhausted"
                  ELSE ""
      IN IF dead THEN UNCHANGED <<delivered, opens, ended, dead, bad>>
         ELSE /\ delivered' = IF nOK /\ ended = "" THEN delivered + st.n ELSE delivered
